@@ -25,6 +25,7 @@ type c08Spec struct {
 	RO       string   `json:"read_only_attempt"`  // ok lock_wait deadline other_error
 	HealS    int      `json:"timeouts_heal_after_s"`
 	Turn     string   `json:"timing_out_replicas_then"` // healthy refusing stopped: what they are once they answer again
+	Second   bool     `json:"second_loss_after_reconnect"`
 }
 
 var c08Conds = []string{"streaming", "stopped", "wrong_source", "not_semisync", "refusing", "timing_out"}
@@ -62,6 +63,7 @@ func c08Gen(seed int64, idx int) c08Spec {
 	}
 	sp.HealS = []int{0, 8, 0, 45}[r.Intn(4)]
 	sp.Turn = []string{"healthy", "refusing", "stopped"}[r.Intn(3)]
+	sp.Second = sp.RO != "lock_wait" && r.Intn(3) == 0
 	return sp
 }
 
@@ -106,6 +108,7 @@ func newC08Monitor(sc *Scen, sp c08Spec, inst, local string, ha []string) *c08Mo
 		if state != "Lost" {
 			if !begin && state == "Candidate" && m.LostIters > 0 {
 				m.sawCandidate = true
+				m.firstTOEnd = 0 // the episode is over: the code's own timer is cleared on reconnect as well
 			}
 			return
 		}
@@ -420,6 +423,20 @@ func c08Run(u *Unit) {
 		mon.mu.Lock()
 		iters, classes, cand := mon.LostIters, fmt.Sprint(mon.Classes), mon.sawCandidate
 		mon.mu.Unlock()
+		if sp.Second && iters > 0 && cand {
+			// the same process loses the coordination service once more: it has to notice again
+			s.CutZK(local, true)
+			time.Sleep(c08Delay + 30*time.Second)
+			mon.mu.Lock()
+			iters2 := mon.LostIters
+			mon.mu.Unlock()
+			if iters2 == iters {
+				sc.Violate("C08", "second-loss-not-noticed", fmt.Sprintf("%s lost the coordination service a second time for %v and never ran its Lost handler (first episode: %d lost iterations)", local, c08Delay+30*time.Second, iters))
+			}
+			sc.Cover("second-loss-episode")
+			s.CutZK(local, false)
+			time.Sleep(15 * time.Second)
+		}
 		if iters > 0 && !cand {
 			sc.Violate("C08", "no-return-to-candidate", fmt.Sprintf("%s did not leave the Lost state within 15 s after the coordination service came back", local))
 		}
